@@ -10,7 +10,7 @@ TEXT = {
  "C05": {
   "level": "TLC validates the analysis operators of GEGrammar (exact minimum depth as a least fixpoint, recursive set, reachability) against the property's own definitions on the enumerated bounded language for every grammar of a TLC-generated family (362 grammars), then checks, for hundreds (quick) / thousands (thorough) of generated class hierarchies plus regression grammars instantiated as real classes, that the Grammar objects built by extract_grammar (both depth modes) and usable_grammar equal what GEGrammar computes from the declared hierarchy; mismatches are diagnosed by the smallest set of named as-coded deviations that explains them.",
   "ref": "DESIGN.md section 4 C05",
-  "note": "family bounded (<= 3 abstract types, <= 7 concrete classes, <= 3 fields); expansion-depthing minima judged on list/union/tuple-free grammars only",
+  "note": "family bounded (<= 3 abstract types, <= 7 concrete classes, <= 3 fields); both depth-counting modes for every form (MinDepthV / MinDepthXV); histories with an earlier extraction over a subset of the classes",
   "technique": "TLA+ model checking of the analysis operators against the enumerated language + replay of generated hierarchies into extract_grammar with TLC comparing the projections",
  },
  "C12": {
